@@ -19,7 +19,7 @@ type Op struct {
 
 var OpKinds = []string{"remove-member", "swap-members", "rename-field", "add-field", "remove-message", "add-message",
 	"toggle-required", "change-field-type", "change-type-mapping", "add-enum-values", "add-group", "add-component",
-	"remove-component", "duplicate-field-number", "duplicate-msgtype", "reorder-messages", "add-nested-groups", "move-framing-field"}
+	"remove-component", "duplicate-field-number", "duplicate-msgtype", "reorder-messages", "add-nested-groups", "move-framing-field", "same-group-in-components"}
 
 // names the generator or the library's interfaces rely on
 var protectedFields = map[string]bool{
@@ -316,6 +316,40 @@ func Apply(base *schema.Schema, baseTM *schema.TypeMap, ops []Op) (s *schema.Sch
 			pos := op.B % (len(*h.members) + 1)
 			*h.members = append((*h.members)[:pos:pos], append([]*schema.Member{g}, (*h.members)[pos:]...)...)
 			note("add %d directly nested groups (%s ...) to %s at %d", depth, g.Name, h.label, pos)
+		case "same-group-in-components":
+			// 2-4 new components that each declare a repeating group of the SAME name with
+			// different members (what the big shipped schema does in its messages): which
+			// definition the one emitted Go type follows must not depend on anything but the schema
+			fresh++
+			gname := fmt.Sprintf("NoZzShared%d", fresh)
+			s.Fields = append(s.Fields, &schema.FieldDef{Number: strconv.Itoa(maxFieldNumber(s) + 1), Name: gname, Type: "NUMINGROUP"})
+			var pool []string
+			k := 2 + op.C%3
+			for j := 0; j < k; j++ {
+				fresh++
+				fname := fmt.Sprintf("ZzSharedField%d", fresh)
+				s.Fields = append(s.Fields, &schema.FieldDef{Number: strconv.Itoa(maxFieldNumber(s) + 1), Name: fname, Type: fixTypesForNew[(op.C+j)%len(fixTypesForNew)]})
+				pool = append(pool, fname)
+			}
+			var cand []holder
+			for _, h := range hs {
+				if h.label != "header" && h.label != "trailer" && !h.isGroup {
+					cand = append(cand, h)
+				}
+			}
+			for j := 0; j < k; j++ {
+				fresh++
+				cname := fmt.Sprintf("ZzSharing%d", fresh)
+				var gm []*schema.Member
+				for _, fname := range pool[:j+1] { // the j-th component's group has j+1 fields
+					gm = append(gm, &schema.Member{Kind: "field", Name: fname, Required: len(gm) == 0})
+				}
+				s.Components = append(s.Components, &schema.Container{Name: cname, Members: []*schema.Member{{Kind: "group", Name: gname, Required: false, Members: gm}}})
+				h := cand[(op.A+j)%len(cand)]
+				pos := (op.B + j) % (len(*h.members) + 1)
+				*h.members = append((*h.members)[:pos:pos], append([]*schema.Member{{Kind: "component", Name: cname}}, (*h.members)[pos:]...)...)
+			}
+			note("add %d components that each declare group %s with 1..%d fields", k, gname, k)
 		case "add-component":
 			fresh++
 			cname := fmt.Sprintf("ZzComponent%d", fresh)
